@@ -102,9 +102,13 @@ def r04_2(run, model, an):
     sp = model.fn("simple_pattern", "crates/parser/src/pattern.rs")
     m = next(iter(S.find(sp.body, "Match")), None)
     if m is not None:
+        # the dispatch may be split over private helpers (a token -> kind table, one function per form): every arm of every match
+        # of simple_pattern and the same-file helpers it calls counts, whatever function it sits in
         arm_toks = set()
-        for arm in m["arms"]:
-            arm_toks |= set(an.tsyms(an.text(sp, arm["pat"])))
+        for g in model.scope_fns(sp, depth=2):
+            for mm in S.find(g.body, "Match"):
+                for arm in mm["arms"]:
+                    arm_toks |= set(an.tsyms(model.facts.text(g.file, arm["pat"]["sp"])))
         missing = sorted(an.consts["PATTERN_FIRST"] - arm_toks)
         run.ob("R04.2", "simple_pattern|arms cover PATTERN_FIRST", not missing, site(sp.file, m["sp"]), f"PATTERN_FIRST tokens without an arm: {missing or 'none'}",
                witness="the catch-all arm is unreachable!(): a FIRST token without an arm panics")
